@@ -31,30 +31,40 @@ theorem afterConsume_clear (s : State) (m : Mapping) :
     ∀ x, x ∈ (afterConsume s m).pass → x ∉ m.frm ∧ x ∉ m.to :=
   fun x hx => (afterConsume_pass_clear s m x hx).2
 
+theorem ramIf_clean {s : State} (m : Mapping) (h : Clean s) : Clean (ramIf m s).1 := by
+  have f := ramIf_frame m s
+  exact ⟨by rw [f.2.2.1]; exact h.abs, by rw [f.2.2.2.1]; exact h.trig⟩
+
+theorem ramIf_pass_sub (m : Mapping) (s : State) (x : Key) (hx : x ∈ (ramIf m s).1.pass) : x ∈ s.pass := by
+  cases ha : producesActionKey m
+  · rw [ramIf_false m s ha] at hx; exact hx
+  · rw [ramIf_true m s ha] at hx; simp [releaseActionMappings] at hx; exact hx.1
+
 /-- (D5 fix) in a clean state whose pass-through keys `m` does not mention — the state right after the
 first consumption — `release_absorbed_keys` and the second consumption are no-ops
-(restated with the fix of D7: the condition is `producesActionKey m`, it was `isActionMapping m`) -/
+(restated with the fix of D7: the condition is `producesActionKey m`, it was `isActionMapping m`)
+(statement unchanged by the fix of D6: in a clean state `release_absorbed_keys` is a no-op whichever condition
+runs it) -/
 theorem addPhase2_clean {s : State} (k : Key) (m : Mapping) (h : Clean s)
     (hp : ∀ x, x ∈ s.pass → x ∉ m.frm ∧ x ∉ m.to) :
     addPhase2 s k m = if producesActionKey m then releaseActionMappings s else (s, []) := by
-  cases ha : producesActionKey m
-  · simp [addPhase2_nonaction s k m ha]
-  · have hsa : shouldAbsorb s k = true := by simp [shouldAbsorb, h.trig]
-    rw [addPhase2_absorb s k m ha hsa, releaseAbsorbedKeys_clean (releaseActionMappings_clean h)]
-    have hp' : ∀ x, x ∈ (releaseActionMappings s).1.pass → x ∉ m.frm ∧ x ∉ m.to := by
-      intro x hx; simp [releaseActionMappings] at hx; exact hp x hx.1
-    have n := afterConsume_noop (releaseActionMappings s).1 m hp'
+  show addPhase2 s k m = ramIf m s
+  cases hb : absorbsNow s k m
+  · exact addPhase2_skip s k m hb
+  · rw [addPhase2_run s k m hb, releaseAbsorbedKeys_clean (ramIf_clean m h)]
+    have hp' : ∀ x, x ∈ (ramIf m s).1.pass → x ∉ m.frm ∧ x ∉ m.to :=
+      fun x hx => hp x (ramIf_pass_sub m s x hx)
+    have n := afterConsume_noop (ramIf m s).1 m hp'
     rw [n.1, n.2]
     simp
 
 theorem addPhase2_clean_frame {s : State} (k : Key) (m : Mapping) (h : Clean s) :
     Clean (addPhase2 s k m).1 ∧ (addPhase2 s k m).1.inp = s.inp ∧ (addPhase2 s k m).1.active = s.active := by
-  have f := releaseActionMappings_frame s
-  cases ha : producesActionKey m
-  · rw [addPhase2_nonaction s k m ha]; exact ⟨h, rfl, rfl⟩
-  · have hsa : shouldAbsorb s k = true := by simp [shouldAbsorb, h.trig]
-    rw [addPhase2_absorb s k m ha hsa, releaseAbsorbedKeys_clean (releaseActionMappings_clean h)]
-    have hc := releaseActionMappings_clean h
+  have f := ramIf_frame m s
+  have hc := ramIf_clean m h
+  cases hb : absorbsNow s k m
+  · rw [addPhase2_skip s k m hb]; exact ⟨hc, f.1, f.2.1⟩
+  · rw [addPhase2_run s k m hb, releaseAbsorbedKeys_clean hc]
     exact ⟨⟨hc.abs, hc.trig⟩, f.1, f.2.1⟩
 
 theorem afterConsume_frame (s : State) (m : Mapping) :
